@@ -161,18 +161,18 @@ type Sim struct {
 	actions   []*Action
 	invariant func() // called after every quiescence
 
-	policy   Policy
-	polRng   *rand.Rand
-	lastGid  int64
-	prio     map[int64]int
-	slowGid  map[int64]time.Time
-	labels   map[string]int
-	nontriv  atomic.Bool
-	finished bool
-	TimedOut bool
-	StepsOut bool
-	End      time.Duration // simulated time at which the scheduler stopped
-	StuckDump string       // goroutine stacks taken when the run ended unfinished
+	policy    Policy
+	polRng    *rand.Rand
+	lastGid   int64
+	prio      map[int64]int
+	slowGid   map[int64]time.Time
+	labels    map[string]int
+	nontriv   atomic.Bool
+	finished  bool
+	TimedOut  bool
+	StepsOut  bool
+	End       time.Duration // simulated time at which the scheduler stopped
+	StuckDump string        // goroutine stacks taken when the run ended unfinished
 }
 
 func goid() int64 {
@@ -274,8 +274,8 @@ func (s *Sim) Violations() []Violation {
 	return append([]Violation(nil), s.viol...)
 }
 
-func (s *Sim) Steps() int         { return s.steps }
-func (s *Sim) TraceHash() uint64  { return s.trace.Sum64() }
+func (s *Sim) Steps() int            { return s.steps }
+func (s *Sim) TraceHash() uint64     { return s.trace.Sum64() }
 func (s *Sim) SetInvariant(f func()) { s.invariant = f }
 
 // Wake makes the root loop re-evaluate.
@@ -589,6 +589,9 @@ func (s *Sim) Run(app func()) {
 			k := s.pick(ev)
 			e := ev[k]
 			s.steps++
+			if s.traceOn && os.Getenv("VERIF_DUMPSTEP") == fmt.Sprint(s.steps) {
+				fmt.Fprintf(os.Stderr, "==== dump at step %d\n%s\n====\n", s.steps, GoroutineDump())
+			}
 			switch e.kind {
 			case 0:
 				s.parked = append(s.parked[:e.pi], s.parked[e.pi+1:]...)
@@ -599,7 +602,13 @@ func (s *Sim) Run(app func()) {
 				}
 				s.tracef("g %s %d/%d c%d", e.p.label, k, len(ev), v)
 				if s.traceOn {
-					fmt.Fprintf(os.Stderr, "    gid=%d %s\n", e.p.gid, e.p.where)
+					var gl []int64
+					for _, x := range ev {
+						if x.kind == 0 {
+							gl = append(gl, x.p.gid)
+						}
+					}
+					fmt.Fprintf(os.Stderr, "    gid=%d %s cand=%v\n", e.p.gid, e.p.where, gl)
 				}
 				e.p.rel <- v
 			case 1:
